@@ -138,10 +138,14 @@ fn judge_fields(ctx: &mut Ctx, f: &Fields, cpb: u64, helper: &str, what: &str) {
     }
 }
 
+thread_local! {
+    /// largest collateral set explored (3 quick, 5 thorough)
+    static MAX_SET: std::cell::Cell<usize> = std::cell::Cell::new(3);
+}
 fn sc_explicit(ctx: &mut Ctx) {
     let mask = 1 + ctx.choose_free((1 << COLL.len()) - 1);
     let sel: Vec<usize> = (0..COLL.len()).filter(|i| mask & (1 << i) != 0).collect();
-    if sel.len() > 3 {
+    if sel.len() > MAX_SET.with(|m| m.get()) {
         return;
     }
     let helper = ctx.choose_free(2);
@@ -257,7 +261,7 @@ fn sc_explicit(ctx: &mut Ctx) {
 fn sc_percentage(ctx: &mut Ctx) {
     let mask = ctx.choose_free(1 << COLL.len());
     let sel: Vec<usize> = (0..COLL.len()).filter(|i| mask & (1 << i) != 0).collect();
-    if sel.len() > 3 {
+    if sel.len() > MAX_SET.with(|m| m.get()) {
         return;
     }
     let pct = *ctx.pick_free(&[150u64, 0, 1, 100, 99, 0x1_0000_0000, u64::MAX]);
@@ -324,17 +328,24 @@ fn sc_percentage(ctx: &mut Ctx) {
     let _: BTreeMap<u8, u8> = BTreeMap::new();
 }
 
-pub fn scenario(name: &str, _tier: Tier) -> Option<BoxedScenario> {
+pub fn scenario(name: &str, tier: Tier) -> Option<BoxedScenario> {
+    let max = if tier.thorough() { 5 } else { 3 };
     match name {
-        "explicit" => Some(Box::new(sc_explicit)),
-        "percentage" => Some(Box::new(sc_percentage)),
+        "explicit" => Some(Box::new(move |c| {
+            MAX_SET.with(|m| m.set(max));
+            sc_explicit(c)
+        })),
+        "percentage" => Some(Box::new(move |c| {
+            MAX_SET.with(|m| m.set(max));
+            sc_percentage(c)
+        })),
         _ => None,
     }
 }
 
 pub fn run(tier: Tier, seed: u64) -> i32 {
     let mut rep = Report::new(P, tier, seed);
-    rep.rule = "collateral input sets of size 1..3 over 5 candidates (ADA at three widths, ADA+A, ADA+A+B) x {set_collateral_return_and_total with 9 return coins around min-ADA / the input total x 6 asset choices (exact, fewer, more, different, none, partial); set_total_collateral_and_return with 9 totals} x coins_per_byte {4310, 1} x both orders of setting collateral and balancing; percentage helper: collateral sets (incl. none) x 7 percentages x 3 output sizes x 2 strategies. distinct = distinct argument tuples".into();
+    rep.rule = "collateral input sets of size 1..3 (thorough 1..5) over 5 candidates (ADA at three widths, ADA+A, ADA+A+B) x {set_collateral_return_and_total with 9 return coins around min-ADA / the input total x 6 asset choices (exact, fewer, more, different, none, partial); set_total_collateral_and_return with 9 totals} x coins_per_byte {4310, 1} x both orders of setting collateral and balancing; percentage helper: collateral sets (incl. none) x 7 percentages x 4 output sizes (one beyond everything offered, so that the helper fails while balancing) x 2 strategies. distinct = distinct argument tuples".into();
     rep.assume("the raw pass-through setters set_collateral_return / set_total_collateral validate nothing by design and are not entry points of this property");
     rep.trusted_base = vec!["notes/ledger_rules.md §7".into(), "refcbor".into()];
     rep.required_hits = vec!["ok:return_and_total", "ok:total_and_return", "ok:percentage-helper", "equation-holds", "asset-carrying-collateral", "err:assets-left-in-total", "err:return-below-min-ada", "err:total-exceeds-inputs", "percentage-helper-err", "percentage-helper-err-in-balancing", "pct-with-remainder"];
